@@ -346,10 +346,15 @@ def evaluate(env, cap, ops, rng=None, with_epilogue=True):
             if any(j.kind == "out" and j.shmid == ds.shmid and j.phase in ("io", "unlink", "cb") for j in d.board.jobs):
                 continue
             fu = w.failed_under_reader.get(key)
-            if fu is not None and fu[0] is ds:
+            if fu is not None and fu[0] is ds and getattr(ds, "delayed_purge", True):      # ... and its purge was indeed delayed
                 bad.append((SIG_STUCK, f"op {fu[1]} {ops[fu[1]]}: the page-out of {key} failed while a stale reader held it: its purge was delayed and the dataset is left "
                             f"in paging_out for ever (no job pending, lock held: {d.m.pageout_all.locked()}): {S.snapshot(d.m).get(key)}, free_space {d.m.free_space} of "
                             f"{cap}; afterwards in this history: {fu[2]}", fu[1]))
+            elif not g["was_closed"]:
+                # an allocation abandoned by its writer (never closed; evicted as stale-created, cf. stale-writer-readable) whose segment was never
+                # created: page-out and purge both fail on the missing segment.  Not a dataset in the sense of the property (nothing was ever
+                # written); counted (event:abandoned-allocation-stuck), not judged
+                d.events.append(("abandoned-allocation-stuck", len(obs) - 1, key))
             else:
                 sig = SIG_READD if S.readd_evidence(d) else "stuck-in-paging-out"
                 bad.append((sig, f"{key} is left in status paging_out with no page-out job pending (nothing will ever move it on, its space is never "
